@@ -224,7 +224,8 @@ func (fr *frame) tryMergeRegion(c *Term) (merged bool) {
 	defer func() {
 		if r := recover(); r != nil {
 			if _, isPanic := r.(goPanic); !isPanic {
-				if _, isBug := r.(engineBug); !isBug {
+				_, isBug := r.(engineBug)
+				if _, isTimeout := r.(solverTimeout); !isBug || isTimeout {
 					panic(r)
 				}
 			}
